@@ -21,6 +21,9 @@ pub enum SV {
     List(Vec<SV>),
     Map(Vec<(String, SV)>),
     Vector(Vec<u32>),
+    /// a long string of one repeated ASCII character (length, character), kept compact in
+    /// operation lists and replay files
+    BigStr(u32, u8),
 }
 
 impl SV {
@@ -35,6 +38,7 @@ impl SV {
             SV::Int(i) => Value::Int64(*i),
             SV::F(b) => Value::Float64(f64::from_bits(*b)),
             SV::Str(s) => Value::String(s.as_str().into()),
+            SV::BigStr(n, c) => Value::String(String::from_utf8(vec![*c; *n as usize]).unwrap_or_default().as_str().into()),
             SV::Bytes(b) => Value::Bytes(Arc::from(b.as_slice())),
             SV::List(xs) => Value::List(xs.iter().map(SV::to_value).collect::<Vec<_>>().into()),
             SV::Map(kv) => Value::Map(Arc::new(
@@ -57,6 +61,7 @@ impl SV {
             Value::Bool(b) => SV::Bool(*b),
             Value::Int64(i) => SV::Int(*i),
             Value::Float64(f) => SV::F(f.to_bits()),
+            Value::String(s) if s.len() > 4096 && s.as_bytes().iter().all(|b| *b == s.as_bytes()[0] && b.is_ascii()) => SV::BigStr(s.len() as u32, s.as_bytes()[0]),
             Value::String(s) => SV::Str(s.to_string()),
             Value::Bytes(b) => SV::Bytes(b.to_vec()),
             Value::Timestamp(t) => SV::Str(format!("<timestamp {t:?}>")),
@@ -126,6 +131,7 @@ impl SV {
                 }
             }
             SV::Str(_) => "str",
+            SV::BigStr(..) => "big-str",
             SV::Bytes(_) => "bytes",
             SV::List(_) => "list",
             SV::Map(_) => "map",
